@@ -1,0 +1,49 @@
+//go:build verif
+
+package face
+
+import (
+	"github.com/named-data/ndnd/fw/dispatch"
+	"github.com/named-data/ndnd/fw/fw"
+)
+
+// Contracts for the gcv verifier (/verif); compiled only with build tag `verif`.
+
+// specFwReady: the forwarder's dispatch tables are initialised and consistent (established once at start-up by
+// fw/executor before any face receives; assumed here, listed as an assumption of the receive-path proofs).
+func specFwReady() bool {
+	return len(fw.Threads) >= 1 && len(fw.Threads) == len(dispatch.FWDispatch) &&
+		forallIn(0, len(dispatch.FWDispatch), func(i int) bool { return dispatch.FWDispatch[i] != nil })
+}
+
+func forallIn(lo, hi int, f func(int) bool) bool {
+	for i := lo; i < hi; i++ {
+		if !f(i) {
+			return false
+		}
+	}
+	return true
+}
+
+//@ func (*linkServiceBase).dispatchInterest
+//@   requires specFwReady() && l.transport != nil
+//@   requires pkt != nil && pkt.L3 != nil && pkt.L3.Interest != nil
+//@   modifies pkt.Name
+
+//@ func (*linkServiceBase).dispatchData
+//@   requires specFwReady() && l.transport != nil
+//@   requires pkt != nil && pkt.L3 != nil && pkt.L3.Data != nil
+//@   modifies pkt.Name
+
+// A frame of arbitrary bytes never crashes the link service; a frame that does not decode changes nothing
+// but (at most) counters.
+//
+//@ func (*NDNLPLinkService).handleIncomingFrame
+//@   requires specFwReady() && l.transport != nil && l.partialMessageStore != nil
+//@   modifies l.nInInterests, l.nInData, l.partialMessageStore, all([][]byte)
+
+//@ func (*NDNLPLinkService).reassemblePacket
+//@   requires l.partialMessageStore != nil && frame != nil
+//@   modifies l.partialMessageStore, all([][]byte)
+//@   loop 1 invariant receivedCount >= 0 && receivedCount <= rangeindex+1
+//@   loop 2 invariant len(reassembled) == len(l.partialMessageStore[baseSequence])
